@@ -58,6 +58,16 @@ class Box:
 
 async def co(x):
     return x
+
+
+def emit(flag):
+    yield "A" if flag else 1
+
+
+def walk(node):
+    if isinstance(node, list):
+        return [walk(c) for c in node]
+    return str(node)
 '''
 
 
@@ -86,7 +96,8 @@ def memv(v, t, classes):
     if k == "TupleVar":
         return isinstance(v, tuple) and all(memv(e, t.__args__[0], classes) for e in v)
     if k in ("Dict", "DefaultDict"):
-        return isinstance(v, dict) and all(memv(a, t.__args__[0], classes) and memv(b, t.__args__[1], classes) for a, b in v.items())
+        import collections
+        return isinstance(v, collections.defaultdict if k == "DefaultDict" else dict) and all(memv(a, t.__args__[0], classes) and memv(b, t.__args__[1], classes) for a, b in v.items())
     if k == "Iterator":
         return True
     if k == "Generator":
@@ -127,7 +138,16 @@ def run(ctx):
                 def see(fn, pos, v):
                     observed.setdefault((fn, pos), []).append(v)
                 calls = [rnd.choice(grammar) for _ in range(6)]
+                if hist == 0:
+                    # crafted history: empty dict + non-empty defaultdict at one position, recursion with different types, one generator yielding different types
+                    calls = [{}, dd, [], [1], None, (1, "s")]
                 with monkeytype.trace(cfg):
+                    if hist == 0:
+                        r_ = t.walk([1, [2, 3]]); see("walk", "node", [1, [2, 3]]); see("walk", "node", 1); see("walk", "node", [2, 3]); see("walk", "node", 2); see("walk", "node", 3)
+                        see("walk", "return", r_); see("walk", "return", "1"); see("walk", "return", ["2", "3"]); see("walk", "return", "2"); see("walk", "return", "3")
+                        list(t.produce(1, "A")); list(t.produce(1, 1)); see("produce", "item", "A"); see("produce", "item", 1); see("produce", "n", 1)
+                        see("produce", "yield", "A"); see("produce", "yield", 1)
+                        list(t.emit(True)); list(t.emit(False)); see("emit", "flag", True); see("emit", "yield", "A"); see("emit", "yield", 1)
                     for v in calls:
                         w = rnd.choice(grammar)
                         t.ident(v, w); see("ident", "a", v); see("ident", "b", w); see("ident", "return", v)
@@ -151,6 +171,17 @@ def run(ctx):
                     continue
                 bad = []
                 for (fn, pos), vs in observed.items():
+                    if pos == "yield":
+                        ra = anns.get(fn, {}).get("return")
+                        ya = getattr(ra, "__args__", [None])[0] if ra is not None and spec_c.kind(ra) in ("Iterator", "Generator") else None
+                        if ya is None:
+                            bad.append("%s: return annotation %r is not an Iterator / Generator of the yielded values" % (fn, ra))
+                        else:
+                            for v in vs:
+                                if not memv(v, ya, classes):
+                                    bad.append("%s yield: %s does not admit yielded %s" % (fn, infer.short(ya, 90), infer.short(v, 60)))
+                                    break
+                        continue
                     ann = anns.get(fn, {}).get(pos)
                     if ann is None:
                         if pos != "return" or fn != "produce":
